@@ -58,6 +58,255 @@ Definition sniff (p : bytes) : sniffres :=
       else SRedcon
   end.
 
+(* ---------- readNextHTTPCommand ----------
+   Outcomes that only differ in fields the framing does not depend on (msg.Auth, msg.AcceptEncoding,
+   ConnType HTTP vs WebSocket) are not distinguished.  The two side-effecting branches are marked:
+   OPTIONS writes the CORS head and reports "not ready" (CIncomplete here; the write is repeated on every
+   later call, which is outside the theorems), a websocket upgrade writes the 101 head once and
+   completes like a plain request.  EHttp 0 = errInvalidHTTP, 1 = strconv.ParseUint syntax error,
+   2 = strconv.ParseUint range error. *)
+
+(* readcrlfline: first i >= 1 with p[i] = '\n' and p[i-1] = '\r'; line = p[:i-1], leftover = p[i+1:] *)
+Fixpoint crlf_go (s : bytes) (prev : N) (rline : bytes) : option (bytes * bytes) :=
+  match s with
+  | [] => None
+  | x :: s' => if ((x =? LF) && (prev =? CR))%N then Some (rev rline, s') else crlf_go s' x (prev :: rline)
+  end.
+Definition readcrlf (p : bytes) : option (bytes * bytes) :=
+  match p with [] => None | c :: s => crlf_go s c [] end.
+
+Inductive hdrres := HNotReady | HOk (headers : list bytes) (rest : bytes) | HFuel.
+Fixpoint read_headers (fuel : nat) (p : bytes) (racc : list bytes) : hdrres :=
+  match fuel with
+  | O => HFuel
+  | S f =>
+      match readcrlf p with
+      | None => HNotReady
+      | Some (line, rest) =>
+          match line with
+          | [] => HOk (rev racc) rest
+          | _ => read_headers f rest (line :: racc)
+          end
+      end
+  end.
+
+(* strings.Split(s, " ") *)
+Fixpoint split_on (c : N) (l : bytes) (rcur : bytes) : list bytes :=
+  match l with
+  | [] => [rev rcur]
+  | x :: l' => if (x =? c)%N then rev rcur :: split_on c l' [] else split_on c l' (x :: rcur)
+  end.
+
+(* url.QueryUnescape *)
+Definition ishex (c : N) : bool :=
+  (((48 <=? c) && (c <=? 57)) || ((97 <=? c) && (c <=? 102)) || ((65 <=? c) && (c <=? 70)))%N.
+Definition unhex (c : N) : N :=
+  (if (48 <=? c) && (c <=? 57) then c - 48 else if (97 <=? c) && (c <=? 102) then c - 97 + 10 else c - 65 + 10)%N.
+Fixpoint escapes_ok (l : bytes) : bool :=
+  match l with
+  | [] => true
+  | 37%N :: r => match r with a :: b :: r' => ishex a && ishex b && escapes_ok r | _ => false end
+  | _ :: r => escapes_ok r
+  end.
+Fixpoint unescape_q (fuel : nat) (l : bytes) : bytes :=
+  match fuel with
+  | O => []
+  | S f =>
+      match l with
+      | [] => []
+      | 37%N :: a :: b :: r => (unhex a * 16 + unhex b)%N :: unescape_q f r
+      | 43%N :: r => 32%N :: unescape_q f r
+      | c :: r => c :: unescape_q f r
+      end
+  end.
+Definition query_unescape (l : bytes) : option bytes :=
+  if escapes_ok l then Some (unescape_q (length l) l) else None.
+
+(* headerValue(header, name): the header text after "name:" and blanks, case-insensitive (ASCII) *)
+Fixpoint hv_match (hdr name : bytes) : option bytes :=
+  match name with
+  | [] => Some hdr
+  | b :: name' =>
+      match hdr with
+      | [] => None
+      | a :: hdr' => if (lower_byte a =? lower_byte b)%N then hv_match hdr' name' else None
+      end
+  end.
+Fixpoint skip_blanks (l : bytes) : bytes :=
+  match l with
+  | c :: r => if ((c =? 32) || (c =? 9))%N then skip_blanks r else l
+  | [] => []
+  end.
+Definition header_value (hdr name : bytes) : option bytes :=
+  match hv_match hdr name with
+  | Some (58%N :: rest) => Some (skip_blanks rest)
+  | _ => None
+  end.
+
+(* strings.TrimSpace: ASCII \t \n \v \f \r ' ' and the UTF-8 encodings of U+0085 U+00A0 U+1680 U+2000..200A
+   U+2028 U+2029 U+202F U+205F U+3000 *)
+Definition ascii_space (c : N) : bool := (((9 <=? c) && (c <=? 13)) || (c =? 32))%N.
+Fixpoint trim_left (fuel : nat) (l : bytes) : bytes :=
+  match fuel with
+  | O => l
+  | S f =>
+      match l with
+      | c :: r =>
+          if ascii_space c then trim_left f r else
+          match l with
+          | 194%N :: x :: r2 => if ((x =? 133) || (x =? 160))%N then trim_left f r2 else l
+          | 225%N :: 154%N :: 128%N :: r3 => trim_left f r3
+          | 226%N :: 128%N :: x :: r3 =>
+              if (((128 <=? x) && (x <=? 138)) || (x =? 168) || (x =? 169) || (x =? 175))%N then trim_left f r3 else l
+          | 226%N :: 129%N :: 159%N :: r3 => trim_left f r3
+          | 227%N :: 128%N :: 128%N :: r3 => trim_left f r3
+          | _ => l
+          end
+      | [] => []
+      end
+  end.
+(* the same from the end: on the reversed string with reversed encodings *)
+Fixpoint trim_left_rev (fuel : nat) (l : bytes) : bytes :=
+  match fuel with
+  | O => l
+  | S f =>
+      match l with
+      | c :: r =>
+          if ascii_space c then trim_left_rev f r else
+          match l with
+          | x :: 194%N :: r2 => if ((x =? 133) || (x =? 160))%N then trim_left_rev f r2 else
+              match l with
+              | 128%N :: 154%N :: 225%N :: r3 => trim_left_rev f r3
+              | _ => l
+              end
+          | 128%N :: 154%N :: 225%N :: r3 => trim_left_rev f r3
+          | x :: 128%N :: 226%N :: r3 =>
+              if (((128 <=? x) && (x <=? 138)) || (x =? 168) || (x =? 169) || (x =? 175))%N then trim_left_rev f r3 else
+              match l with
+              | 128%N :: 128%N :: 227%N :: r4 => trim_left_rev f r4
+              | _ => l
+              end
+          | 159%N :: 129%N :: 226%N :: r3 => trim_left_rev f r3
+          | 128%N :: 128%N :: 227%N :: r3 => trim_left_rev f r3
+          | _ => l
+          end
+      | [] => []
+      end
+  end.
+Definition trim_space (l : bytes) : bytes :=
+  let a := trim_left (length l) l in rev (trim_left_rev (length a) (rev a)).
+
+(* strconv.ParseUint(s, 10, 64) *)
+Fixpoint all_digits (l : bytes) : bool := match l with [] => true | c :: r => is_digit c && all_digits r end.
+Fixpoint digits_val (l : bytes) (v : Z) : Z := match l with [] => v | c :: r => digits_val r (v * 10 + Z.of_N (c - 48)) end.
+Inductive uintres := UOk (n : Z) | USyntax | URange.
+Definition parse_uint (l : bytes) : uintres :=
+  match l with
+  | [] => USyntax
+  | _ => if all_digits l then
+           let v := digits_val l 0 in if v <? 18446744073709551616 then UOk v else URange
+         else USyntax
+  end.
+(* int(n) for a uint64 n *)
+Definition int_of_uint (n : Z) : Z := if n <? 9223372036854775808 then n else n - 18446744073709551616.
+
+Definition w_accept_encoding : bytes := [65;99;99;101;112;116;45;69;110;99;111;100;105;110;103]%N.
+Definition w_authorization : bytes := [65;117;116;104;111;114;105;122;97;116;105;111;110]%N.
+Definition w_upgrade : bytes := [85;112;103;114;97;100;101]%N.
+Definition w_ws_version : bytes := [83;101;99;45;87;101;98;115;111;99;107;101;116;45;86;101;114;115;105;111;110]%N.
+Definition w_ws_key : bytes := [83;101;99;45;87;101;98;115;111;99;107;101;116;45;75;101;121]%N.
+Definition w_content_length : bytes := [67;111;110;116;101;110;116;45;76;101;110;103;116;104]%N.
+Definition w_websocket : bytes := [119;101;98;115;111;99;107;101;116]%N.
+Definition w_options : bytes := [79;80;84;73;79;78;83]%N.
+Definition w_get : bytes := [71;69;84]%N.
+Definition w_post : bytes := [80;79;83;84]%N.
+
+Record hstate := { h_cl : Z; h_ws : bool; h_wsver : Z; h_wskey : bool }.
+Inductive hfold := HState (st : hstate) | HErr (code : N).
+(* for _, hdr := range headers[1:] { ... } *)
+Fixpoint fold_headers (hs : list bytes) (st : hstate) : hfold :=
+  match hs with
+  | [] => HState st
+  | hdr :: hs' =>
+      match header_value hdr w_accept_encoding with
+      | Some _ => fold_headers hs' st
+      | None =>
+      match header_value hdr w_authorization with
+      | Some _ => fold_headers hs' st
+      | None =>
+      match header_value hdr w_upgrade with
+      | Some v =>
+          fold_headers hs' (if bytes_eqb (to_lower (trim_space v)) w_websocket
+                            then {| h_cl := h_cl st; h_ws := true; h_wsver := h_wsver st; h_wskey := h_wskey st |} else st)
+      | None =>
+      match header_value hdr w_ws_version with
+      | Some v =>
+          match parse_uint (trim_space v) with
+          | UOk n => fold_headers hs' {| h_cl := h_cl st; h_ws := h_ws st; h_wsver := int_of_uint n; h_wskey := h_wskey st |}
+          | USyntax => HErr 1 | URange => HErr 2
+          end
+      | None =>
+      match header_value hdr w_ws_key with
+      | Some v =>
+          fold_headers hs' {| h_cl := h_cl st; h_ws := h_ws st; h_wsver := h_wsver st;
+                              h_wskey := match trim_space v with [] => false | _ => true end |}
+      | None =>
+      match header_value hdr w_content_length with
+      | Some v =>
+          match parse_uint (trim_space v) with
+          | UOk n => fold_headers hs' {| h_cl := int_of_uint n; h_ws := h_ws st; h_wsver := h_wsver st; h_wskey := h_wskey st |}
+          | USyntax => HErr 1 | URange => HErr 2
+          end
+      | None => fold_headers hs' st
+      end end end end end end
+  end.
+
+Definition http_finish (path : bytes) (rest : bytes) : cres :=
+  match path with
+  | [] => CComplete [] KHttp rest
+  | _ =>
+      match native_tok (S (length path)) path [] with
+      | TOk args => CComplete args KHttp rest
+      | TPanic => CPanic
+      | TFuel => CFuel
+      end
+  end.
+
+Definition http_parse (p : bytes) : cres :=
+  match read_headers (S (length p)) p [] with
+  | HFuel => CFuel
+  | HNotReady => CIncomplete
+  | HOk [] _ => CPanic                                        (* headers[0] *)
+  | HOk (first :: hs) rest =>
+      match split_on 32 first [] with
+      | [method; rawpath; _] =>
+          if bytes_eqb method w_options then CIncomplete       (* CORS head written; "not ready" *)
+          else
+          match rawpath with
+          | 47%N :: escaped =>
+              match query_unescape escaped with
+              | None => CErr (EHttp 0)
+              | Some path =>
+                  if negb (bytes_eqb method w_get || bytes_eqb method w_post) then CErr (EHttp 0) else
+                  match fold_headers hs {| h_cl := 0; h_ws := false; h_wsver := 0; h_wskey := false |} with
+                  | HErr c => CErr (EHttp c)
+                  | HState st =>
+                      if h_ws st && (13 <=? h_wsver st) && h_wskey st then http_finish path rest
+                      else if 0 <? h_cl st then
+                        if len rest <? h_cl st then CIncomplete else
+                        match slice rest 0 (h_cl st), slice_from rest (h_cl st) with
+                        | Some body, Some rest' => http_finish (path ++ body) rest'
+                        | _, _ => CPanic
+                        end
+                      else http_finish path rest
+                  end
+              end
+          | _ => CErr (EHttp 0)
+          end
+      | _ => CErr (EHttp 0)
+      end
+  end.
+
 Definition read_cmd (http : bytes -> cres) (p : bytes) : cres :=
   match sniff p with
   | SPanic => CPanic
